@@ -107,6 +107,17 @@ def build_obligation(inst):
             ok = (got == want) or (got != got and want != want)
             return [(z3.BoolVal(bool(ok)) if mk.symbolic else bool(ok), None)]
         return ob
+    if kind == "edge1":
+        # unary op on concrete python scalars / 0-d arrays of the boolean carrier (python's own operators differ from
+        # numpy's there: ~True == -2)
+        _, opn, a, want = inst
+
+        def ob(mk):
+            import z3
+            got = O(opn)(a)
+            ok = bool(got == want) and (isinstance(want, bool) <= (not isinstance(got, (int,)) or isinstance(got, bool)))
+            return [(z3.BoolVal(bool(ok)) if mk.symbolic else bool(ok), None)]
+        return ob
     if kind == "distrib":
         _, addn, muln, shapes = inst
         car = PAIR_CARRIER[(addn, muln)]
@@ -727,6 +738,10 @@ def instances(tier):
     for a, b, want in [(-inf, -inf, -inf), (-inf, 0.0, 0.0), (0.0, -inf, 0.0), (-inf, 1.5, 1.5), (-745.0, -inf, -745.0)]:
         out.append(("edge", "logaddexp", a, b, want))
         out.append(("edge", "logaddexp", np_arr(a), np_arr(b), want))
+    import numpy as _np
+    for a, want in ((True, False), (False, True)):
+        out.append(("edge1", "invert", a, want))
+        out.append(("edge1", "invert", _np.array(a), want))
     out += [("fp", "_safesub", "safesub"), ("fp", "_reciprocal", "reciprocal"), ("fp", "_safediv", "safediv")]
     out += [("fpshift", "_safe_logaddexp_tensor_tensor", False), ("fpshift", "_safe_logaddexp_number_tensor", True)]
     for sh in [(3,), (2, 2)] + ([(2, 3), (2, 2, 2)] if tier != "quick" else []):
